@@ -200,13 +200,13 @@ func c08GenSpellings(e *c08Env) {
 	spell := []string{`50`, `"50"`, `" 50 "`, `"+50"`, `"5 0"`, `""`, `"abc"`, `"50.0"`, `50.0`, `50.5`, `49.999`, `5e1`, `5E1`, `0.5e2`, `500e-1`, `505e-1`,
 		`-0`, `-0.0`, `-1.5`, `-50`, `"-50"`, `true`, `null`, `[]`, `{}`, `9007199254740991`, `9007199254740992`, `9007199254740993`,
 		`9223372036854775807`, `-9223372036854775808`, `"9223372036854775807"`, `"9223372036854775808"`, `1e15`, `123456789012345.5`,
-		`"\t50\n"`, `"0x32"`, `"5_0"`, `0`, `"0"`, `100`, `"100"`, `51`, `"51"`, `50.9`, `"٥٠"`, `1.0e2`, `100e0`}
+		`9223372036854775808`, `1e19`, `1e30`, `-1e19`, `9223372036854775808.0`, `"\t50\n"`, `"0x32"`, `"5_0"`, `0`, `"0"`, `100`, `"100"`, `51`, `"51"`, `50.9`, `"٥٠"`, `1.0e2`, `100e0`}
 	places := []string{"ban", "users_default", "users:@bob:hs2", "users:@alice:hs1", "events:x.custom", "notifications:room", "state_default"}
 	// every version, always: a string, a padded string, a fraction and an exponent at a named key,
 	// a users entry, an events entry and a notifications entry of the new content (a version whose
 	// table entry is wired to the other parser then yields a concrete disagreement)
 	for _, ver := range c07Versions {
-		for _, sp := range []string{`"50"`, `" 50 "`, `50.5`, `5e1`, `50.0`, `"abc"`, `50`} {
+		for _, sp := range []string{`"50"`, `" 50 "`, `50.5`, `5e1`, `50.0`, `"abc"`, `50`, `9223372036854775808`, `1e19`, `1e30`} {
 			for _, place := range []string{"ban", "users:@bob:hs2", "events:x.custom", "notifications:room"} {
 				b := J{"events": J{"m.room.power_levels": 0}, "users": J{"@alice:hs1": 50}}
 				o := cloneJ(b)
@@ -366,10 +366,57 @@ func toInt(v interface{}) int64 {
 	return 0
 }
 
+// member names that encoding/json would fold onto the real ones (ASCII case, U+017F for s, U+212A
+// for k): the content is read by exact names only; a twin neither hides what the real member says
+// nor counts for anything itself
+func c08GenFoldedNames(e *c08Env) {
+	twins := map[string][]string{
+		"users": {"user\u017f", "Users", "USERS"}, "kick": {"\u212aick", "Kick", "KICK"}, "ban": {"Ban", "BAN"},
+		"events": {"Events", "event\u017f"}, "notifications": {"Notifications", "notification\u017f"},
+		"users_default": {"Users_Default", "u\u017fers_default"}, "invite": {"Invite"}, "state_default": {"\u017ftate_default"},
+	}
+	for _, ver := range c07Versions {
+		for member, names := range twins {
+			for _, twin := range names {
+				for _, dir := range []string{"real-escalates", "twin-escalates", "both-same"} {
+					mkv := func(level int64) interface{} {
+						switch member {
+						case "users":
+							return J{"@alice:hs1": 50, "@bob:hs2": level}
+						case "events":
+							return J{"m.room.power_levels": 0, "x.custom": level}
+						case "notifications":
+							return J{"room": level}
+						}
+						return level
+					}
+					old := J{"events": J{"m.room.power_levels": 0}, "users": J{"@alice:hs1": 50}}
+					old[member] = mkv(50)
+					realV, twinV := int64(50), int64(50)
+					switch dir {
+					case "real-escalates":
+						realV = 100
+					case "twin-escalates":
+						twinV = 100
+					}
+					// build the new content by hand so that both members are there
+					n := cloneJ(old)
+					n[member] = mkv(realV)
+					nb, _ := json.Marshal(n)
+					tb, _ := json.Marshal(mkv(twinV))
+					content := json.RawMessage(string(nb[:len(nb)-1]) + `,"` + twin + `":` + string(tb) + `}`)
+					e.run(ver, "@alice:hs1", old, content, nil, "join", "pl/folded-names/"+dir, fmt.Sprintf("%s ~ %s", twin, member))
+				}
+			}
+		}
+	}
+}
+
 func c08All(c *Ctx, propOp string) {
 	e := &c08Env{c: c, propOp: propOp}
 	c08GenExhaustive(e)
 	c08GenSpellings(e)
+	c08GenFoldedNames(e)
 	c08GenHistories(e, c.Scale(150, 3000))
 }
 
